@@ -121,7 +121,7 @@ func TestC14Scalars(t *testing.T) {
 				sources = append(sources, reflect.Zero(reflect.PtrTo(bt)).Interface()) // nil pointer of the accepted type
 				if bt.Kind() == reflect.Slice {
 					sources = append(sources, reflect.Zero(bt).Interface()) // nil slice of the accepted type
-					pn := reflect.New(bt)                                    // pointer to a nil slice
+					pn := reflect.New(bt)                                   // pointer to a nil slice
 					sources = append(sources, pn.Interface())
 				}
 			}
